@@ -78,7 +78,7 @@ func c05r1(c *Ctx, id string) {
 		_ = off
 		_ = vb
 		recvName := pw.Params[0].Name()
-		dirtyName := h.Bools[0]
+		isDirty := w.writerDirty(pw)
 		// does the writer itself raise the flag in every state that stores with dirty=true?
 		raisedInWriter := true
 		res := RunOAE(w, h, func(st *State, out *Outcome) string {
@@ -89,7 +89,7 @@ func c05r1(c *Ctx, id string) {
 				}
 			}
 			f := out.Final(recvName + "." + flag.Name())
-			if stored && st.B(dirtyName) {
+			if stored && isDirty(st) {
 				if b, ok := f.(avBool); !ok || !b.b {
 					raisedInWriter = false
 				}
@@ -155,7 +155,7 @@ func c05r2(c *Ctx, id string) {
 			c.Undecided(id, fname(pw), pw.Pos(), "%v", err)
 			continue
 		}
-		dirtyName := h.Bools[0]
+		isDirty := w.writerDirty(pw)
 		var closures []*ssa.Function
 		spec := func(st *State, out *Outcome) string {
 			stored := false
@@ -191,7 +191,7 @@ func c05r2(c *Ctx, id string) {
 					return "dirty mark removed by the position writer: " + e.String()
 				}
 			}
-			want := stored && st.B(dirtyName)
+			want := stored && isDirty(st)
 			if want && marks == 0 {
 				return "position stored with dirty=true but the vBucket is not marked dirty"
 			}
